@@ -98,6 +98,7 @@ func (c *client) SendRPC(rpc hrpc.Call) (msg proto.Message, err error) {
 
 	backoff := backoffStart
 	serverErrorCount := 0
+	notServingCount := 0
 	for {
 		rc, err := c.getRegionAndClientForRPC(ctx, rpc)
 		if err != nil {
@@ -126,6 +127,18 @@ func (c *client) SendRPC(rpc hrpc.Call) (msg proto.Message, err error) {
 			serverErrorCount++
 			continue // retry
 		case region.NotServingRegionError:
+			// The region is re-established before the next attempt. Retry
+			// immediately once, so that a moved region is followed fast, but
+			// if the region keeps answering this although it can be
+			// re-established, start to backoff instead of looping hot.
+			if notServingCount > 0 {
+				sp.AddEvent("retrySleep")
+				backoff, err = sleepAndIncreaseBackoff(ctx, backoff)
+				if err != nil {
+					return msg, err
+				}
+			}
+			notServingCount++
 			continue // retry
 		}
 		return msg, err
@@ -277,6 +290,7 @@ func (c *client) SendBatch(ctx context.Context, batch []hrpc.Call) (
 	var retries []hrpc.Call
 	backoff := backoffStart
 	serverErrorCount := 0
+	notServingCount := 0
 
 	for {
 		// findClients reports errors by position in batch, which is
@@ -339,6 +353,17 @@ func (c *client) SendBatch(ctx context.Context, batch []hrpc.Call) (
 					needBackoff = true
 				}
 				serverErrorCount++
+				break
+			}
+		}
+		// Likewise follow a moved region at once, but backoff if regions
+		// keep answering NotServingRegionError after being re-established.
+		for _, rpc := range retries {
+			if _, ok := res[rpcToRes[rpc]].Error.(region.NotServingRegionError); ok {
+				if notServingCount > 0 {
+					needBackoff = true
+				}
+				notServingCount++
 				break
 			}
 		}
